@@ -68,8 +68,12 @@ def gen_sequence(rng, n):
     return seq
 
 
-async def replay(net, hyg, backend, seq, seed):
-    w = W.World(net, tree=TREE0, backend=backend)
+MANY = {"/many": DIR}
+MANY.update({f"/many/entry-{i:03d}": (b"x" if i % 3 else DIR) for i in range(300)})
+
+
+async def replay(net, hyg, backend, seq, seed, big=False):
+    w = W.World(net, tree=dict(TREE0, **MANY) if big else TREE0, backend=backend)
     await w.start()
     out = []
     try:
@@ -147,7 +151,7 @@ def ftp_level(plan):
     runs = {}
     for backend in plan["backends"]:
         async def main(net, hyg, backend=backend):
-            return await replay(net, hyg, backend, seq, plan["seed"])
+            return await replay(net, hyg, backend, seq, plan["seed"], big=bool(plan.get("big")))
         res, info = W.run(main, seed=plan["seed"], net_kwargs=dict(latency=0.0005))
         if res is None:
             return W.failed(info, f"backend {backend} sequence {seq}")
@@ -347,6 +351,17 @@ def gen_cases(tier, seed):
     ]
     for j, seq in enumerate(targeted):
         plans.append({"kind": "ftp", "seed": seed + j, "length": 0, "seq": [list(x) for x in seq], "backends": ["memory", "pathio", "async"]})
+    # a directory of 301 entries (more than any chunk a back end may read a directory in)
+    for seq in ([U, E, ("MLSD", "/many", "before"), E, ("LIST", "/many", "after"), ("RMD", "/many/entry-000", None), E, ("MLSD", "/many", "before")],
+                [U, ("CWD", "/many", None), E, ("LIST", "", "before"), ("DELE", "entry-001", None), E, ("MLSD", ".", "after")]):
+        plans.append({"kind": "ftp", "seed": seed, "length": 0, "seq": [list(x) for x in seq], "backends": ["memory", "pathio", "async"], "big": True})
+    # failures of one kind, told apart by the operating system's error number on a real file system and by nothing in memory: the
+    # reply class is the same everywhere
+    for seq in ([U, ("RNFR", "/a/f1", None), ("RNTO", "/nodir/b", None), ("MKD", "/top.txt/sub", None), ("RNFR", "/a/f1", None), ("DELE", "/a/f1", None),
+                 ("RNTO", "/b/z", None)],
+                [U, E, ("REST", "3", None), ("STOR", "/missing.bin", "before"), E, ("REST", "3", None), ("APPE", "/missing2.bin", "before"),
+                 ("MKD", "/a/f1/x", None), ("RMD", "/a/f1", None), ("DELE", "/a", None)]):
+        plans.append({"kind": "ftp", "seed": seed, "length": 0, "seq": [list(x) for x in seq], "backends": ["memory", "pathio", "async"]})
     for i in range(60 if tier == "quick" else 8000):
         plans.append({"kind": "api", "seed": seed * 7777 + i, "length": 40})
     per = 6
